@@ -36,7 +36,9 @@ def cfg(**kv):
     return o
 
 
-SUFFIXES = {'none': [], 'eph': ['?'], 'topic': [';', Atom('topic', 'name')], 'opt': ['!', Atom('opt', 'name')], 'ephtopic': ['?', ';', Atom('topic2', 'name')]}
+SUFFIXES = {'none': [], 'eph': ['?'], 'topic': [';', Atom('topic', 'name')], 'opt': ['!', Atom('opt', 'name')], 'ephtopic': ['?', ';', Atom('topic2', 'name')],
+            'eph2topic': ['??', ';', Atom('topic3', 'name')], 'ephopt': ['?', '!', Atom('opt2', 'name')], 'topicopt': [';', Atom('topic4', 'name'), '!', Atom('opt3', 'name')],
+            'eph2topicsopt': ['??', ';', Atom('topic5', 'name'), ';', Atom('topic6', 'name'), '!', Atom('opt4', 'name')]}
 
 
 def make_filters(shape):
@@ -98,7 +100,7 @@ def shapes_for(tier):
     for idk in ids:
         for outk in ('absent', 'port', 'noport', 'ipc', 'nonmq', 'empty'):
             out.append(((('in', idk, 'absent', outk)),))
-    refs = ('none', 'eph', 'topic', 'opt') if tier == 'quick' else tuple(SUFFIXES)
+    refs = tuple(SUFFIXES)        # every kind of suffix and their combinations, in both tiers
     for idk0, idk1 in itertools.product(ids, ids):
         for outk in ('absent', 'port', 'hostport', 'noport', 'ipc'):
             for src in [('ref', 0, s) for s in refs] + ['absent', 'addr', 'empty']:
@@ -300,7 +302,7 @@ def replay_shape(failure):
         given = mid if isinstance(mid, str) and mid.isidentifier() else f'myid{i}'
         ids.append(given if idk == 'given' else (names[role] if len(same) == 1 else f'{names[role]}{same.index(i) + 1}'))
     args = []
-    suffix = {'none': '', 'eph': '?', 'topic': ';mytopic', 'opt': '!myopt', 'ephtopic': '?;mytopic'}
+    suffix = {'none': '', 'eph': '?', 'topic': ';mytopic', 'opt': '!myopt', 'ephtopic': '?;mytopic', 'eph2topic': '??;mytopic', 'ephopt': '?!myopt', 'topicopt': ';mytopic!myopt', 'eph2topicsopt': '??;ta;tb!myopt'}
     for i, (role, idk, srck, outk) in enumerate(fshape):
         args.append(names[role])
         if idk == 'given':
